@@ -30,7 +30,7 @@ pub static DEF: CheckDef = CheckDef {
 };
 
 fn families(t: Tier) -> Vec<(&'static str, u64)> {
-    vec![("history", t.n(3_000, 100_000))]
+    vec![("history", t.n(8_000, 150_000))]
 }
 fn floors(_t: Tier) -> Vec<(&'static str, u64)> {
     vec![
